@@ -91,6 +91,23 @@ class BigSMILESbase(ABC):
                 )
 
 
+def find_mixture_separator(text):
+    """
+    Position of the first mixture separator '.|' of a text, -1 if there is none.
+
+    A '.|' inside square brackets belongs to a bond descriptor weight like `[$|2.|]`.
+    """
+    depth = 0
+    for i, char in enumerate(text[:-1]):
+        if char == "[":
+            depth += 1
+        elif char == "]":
+            depth -= 1
+        elif char == "." and text[i + 1] == "|" and depth <= 0:
+            return i
+    return -1
+
+
 def get_compatible_bond_descriptor_ids(bond_descriptors, bond):
     compatible_idx = []
     for i, other in enumerate(bond_descriptors):
